@@ -541,4 +541,94 @@ Proof.
   rewrite E. apply sp_zipM_ok; assumption.
 Qed.
 
+(* ---------------------------------------------------------------------------------------- *)
+(** * the uniform-cubic fast path *)
+Notation tUk xmin dx := (tU F 0 1 (spadd K) (spmul K) (spsub K) xmin dx).
+
+Lemma sp_mul_ne0 a b : a <> 0 -> b <> 0 -> a * b <> 0.
+Proof. intros Ha Hb E. apply Hb. replace b with ((1 / a) * (a * b)) by (field; exact Ha). rewrite E. ring. Qed.
+Lemma sp_2_ne0 : 1 + 1 <> 0.
+Proof. intros E. apply (proj2 sp_two_pos). symmetry. exact E. Qed.
+Lemma sp_3_ne0 : 1 + 1 + 1 <> 0.
+Proof. intros E. apply (proj2 sp_three_pos). symmetry. exact E. Qed.
+Lemma sp_3_ne0' : 1 + (1 + 1) <> 0.
+Proof. replace (1 + (1 + 1)) with (1 + 1 + 1) by ring. exact sp_3_ne0. Qed.
+(* side conditions left by [field]: products of 2, 3 and the given non-zero quantities *)
+Ltac sp_nz1 := first [exact sp_2_ne0 | exact sp_3_ne0 | exact sp_3_ne0' | assumption
+  | match goal with Hd : ?d <> 0 |- ?e <> 0 =>
+      let E := fresh "E" in
+      first [ (intros E; apply Hd; rewrite <- E; ring)
+            | (intros E; apply (sp_mul_ne0 _ _ sp_2_ne0 Hd); rewrite <- E; ring)
+            | (intros E; apply (sp_mul_ne0 _ _ sp_3_ne0 Hd); rewrite <- E; ring) ] end ].
+Ltac sp_nz := fold (sp1 K) (sp0 K) (spadd K) (spmul K) (spsub K);
+  repeat split; repeat (apply sp_mul_ne0); sp_nz1.
+
+(** cu_basis_funs sums to one for every offset *)
+Theorem sp_cu_basis_sum_one o : sumf (sp_cu_basis_funs F K o) = 1.
+Proof.
+  unfold sp_cu_basis_funs, cu_basis. cbn [sumF]. unfold six, three, two. field. sp_nz.
+Qed.
+
+(** cu_basis_funs_1st_der sums to zero for every offset *)
+Theorem sp_cu_ders_sum_zero o dx : dx <> 0 -> sumf (sp_cu_basis_funs_1st_der F K o dx) = 0.
+Proof.
+  intros Hdx. unfold sp_cu_basis_funs_1st_der. cbv zeta. cbn [sumF]. unfold sp_half, sp_three, sp_two.
+  field. sp_nz.
+Qed.
+
+Lemma sp_uniform_knots_length xmin dx n : length (sp_uniform_knots F K xmin dx n) = (n + 7)%nat.
+Proof. unfold sp_uniform_knots. rewrite map_length, seq_length. reflexivity. Qed.
+
+Lemma sp_kn_uniform xmin dx n i : (i < n + 7)%nat -> sp_kn F K (sp_uniform_knots F K xmin dx n) i = tUk xmin dx i.
+Proof. intros H. unfold sp_kn, sp_uniform_knots. rewrite (sp_nth_map_seq (tUk xmin dx)) by exact H. reflexivity. Qed.
+
+(** values: on the uniform extension knot vector, A2.2 at x = t_s + o*dx is the closed form
+    (CubicUniform.cu_eq_general) *)
+Theorem sp_cu_basis_eq_A22 xmin dx n s o : dx <> 0 -> (3 <= s)%nat -> (s + 3 < n + 7)%nat ->
+  sp_A22 F K (sp_uniform_knots F K xmin dx n) 3 (tUk xmin dx s + o * dx) s = sp_cu_basis_funs F K o.
+Proof.
+  intros Hdx H3 Hn. unfold sp_cu_basis_funs.
+  rewrite <- (cu_eq_general F 0 1 (spadd K) (spmul K) (spsub K) (spdiv K) (spopp K) (spinv K) Fth
+                sp_two_ne0 sp_three_ne0 xmin dx Hdx s o H3).
+  unfold sp_A22, basis_funs. cbn [basis_from sweep]. unfold L, R.
+  rewrite !sp_kn_uniform by lia. reflexivity.
+Qed.
+
+(** derivatives: on the uniform extension knot vector, nu_basis_funs_1st_der at x = t_s + o*dx is
+    cu_basis_funs_1st_der *)
+Lemma sp_L_uniform xmin dx n s o k : (k <= s)%nat -> (s < n + 7)%nat ->
+  L F (spsub K) (sp_kn F K (sp_uniform_knots F K xmin dx n)) (tUk xmin dx s + o * dx) s k
+  = (o + ofnat F 0 1 (spadd K) k) * dx.
+Proof.
+  intros Hk Hs. rewrite <- (L_uniform F 0 1 (spadd K) (spmul K) (spsub K) (spdiv K) (spopp K) (spinv K) Fth xmin dx s o k Hk).
+  unfold L. rewrite sp_kn_uniform by lia. reflexivity.
+Qed.
+Lemma sp_R_uniform xmin dx n s o k : (s + 1 + k < n + 7)%nat ->
+  R F (spsub K) (sp_kn F K (sp_uniform_knots F K xmin dx n)) (tUk xmin dx s + o * dx) s k
+  = (1 - o + ofnat F 0 1 (spadd K) k) * dx.
+Proof.
+  intros Hs. rewrite <- (R_uniform F 0 1 (spadd K) (spmul K) (spsub K) (spdiv K) (spopp K) (spinv K) Fth xmin dx s o k).
+  unfold R. rewrite sp_kn_uniform by lia. reflexivity.
+Qed.
+Lemma sp_der_den_uniform xmin dx n s j : (3 <= s)%nat -> (s + j + 1 < n + 7)%nat ->
+  sp_der_den F K (sp_uniform_knots F K xmin dx n) 3 s j = (1 + 1 + 1) * dx.
+Proof.
+  intros H3 Hn. unfold sp_der_den. rewrite !sp_kn_uniform by lia. unfold tU.
+  replace (s + j + 1)%nat with ((s + j + 1 - 3) + 3)%nat at 1 by lia.
+  rewrite (ofnat_add F 0 1 (spadd K) (spmul K) (spsub K) (spdiv K) (spopp K) (spinv K) Fth). cbn [ofnat].
+  unfold three, two. ring.
+Qed.
+
+Theorem sp_cu_ders_eq_nu xmin dx n s o : dx <> 0 -> (3 <= s)%nat -> (s + 3 < n + 7)%nat ->
+  sp_ders_raw F K (sp_uniform_knots F K xmin dx n) 3 (tUk xmin dx s + o * dx) s
+  = sp_cu_basis_funs_1st_der F K o dx.
+Proof.
+  intros Hdx H3 Hn. unfold sp_ders_raw, sp_A22, basis_funs. cbv zeta.
+  cbn [Nat.sub basis_from sweep seq map sp_ders_of_terms sp_ders_loop].
+  unfold sp_der_term. rewrite !sp_der_den_uniform by lia. cbn [nth Nat.sub].
+  rewrite !sp_L_uniform by lia. rewrite !sp_R_uniform by lia.
+  unfold sp_cu_basis_funs_1st_der, sp_ofnat, sp_half, sp_three, sp_two. cbn [ofnat]. cbv zeta.
+  f_equal; [field; sp_nz|]. f_equal; [field; sp_nz|]. f_equal; [field; sp_nz|]. f_equal. field; sp_nz.
+Qed.
+
 End Theory.
